@@ -112,19 +112,40 @@ func runC16(env *Env, tier string) {
 		}
 		env.OnCleanup(func() { keeper.Close() })
 	}
+	twins := nsess > 1 && ch.Chance("twins", 1, 3)
+	twinKey := []string{config.SenderCompID, config.SenderSubID, config.SenderLocationID, config.TargetCompID, config.TargetSubID,
+		config.TargetLocationID, config.SessionQualifier, config.BeginString}[ch.Choose("twinkey", 8)]
+	if twins {
+		env.Stat("probe_sessions_differing_in_one_id_part")
+	}
 	var stores []*storeUnderTest
 	for i := 0; i < nsess; i++ {
 		ss := quickfix.NewSessionSettings()
-		ss.Set(config.BeginString, []string{"FIX.4.2", "FIX.4.4", "FIXT.1.1"}[i%3])
-		ss.Set(config.SenderCompID, "SND")
-		ss.Set(config.TargetCompID, fmt.Sprintf("TGT%d", i))
-		if i == 1 {
-			ss.Set(config.SenderSubID, "SUB")
-			ss.Set(config.SessionQualifier, "Q1")
-		}
-		if i == 2 {
-			ss.Set(config.DefaultApplVerID, "FIX.5.0SP2")
-			ss.Set(config.TargetLocationID, "LOC")
+		if twins {
+			// the sessions share every part of their id except one: the backing store must key on all of them
+			ss.Set(config.BeginString, "FIX.4.4")
+			ss.Set(config.SenderCompID, "SND")
+			ss.Set(config.TargetCompID, "TGT")
+			ss.Set(config.SenderSubID, "SS")
+			ss.Set(config.SenderLocationID, "SL")
+			ss.Set(config.TargetSubID, "TS")
+			ss.Set(config.TargetLocationID, "TL")
+			ss.Set(config.SessionQualifier, "Q")
+			if i > 0 {
+				ss.Set(twinKey, fmt.Sprintf("%s%d", map[bool]string{true: "FIX.4.", false: "V"}[twinKey == config.BeginString], i+1))
+			}
+		} else {
+			ss.Set(config.BeginString, []string{"FIX.4.2", "FIX.4.4", "FIXT.1.1"}[i%3])
+			ss.Set(config.SenderCompID, "SND")
+			ss.Set(config.TargetCompID, fmt.Sprintf("TGT%d", i))
+			if i == 1 {
+				ss.Set(config.SenderSubID, "SUB")
+				ss.Set(config.SessionQualifier, "Q1")
+			}
+			if i == 2 {
+				ss.Set(config.DefaultApplVerID, "FIX.5.0SP2")
+				ss.Set(config.TargetLocationID, "LOC")
+			}
 		}
 		ss.Set(config.FileStorePath, "/shared/store")
 		ss.Set(config.FileStoreSync, []string{"Y", "N"}[ch.Choose("filesync", 2)])
